@@ -94,6 +94,9 @@ type injection struct {
 	class   string
 	tx      smchain.Tx
 	skipKey int // signer whose own later transactions are excluded from comparison (-1: none)
+	// acceptOK: the injected transaction is signed by a member and may be legitimately accepted;
+	// only if it is refused (non-zero code) must it be without effect
+	acceptOK bool
 }
 
 // compareTwin runs blocks on A and blocksX (with the injected tx at block p, position q) on B.
@@ -109,6 +112,13 @@ func compareTwin(u *smchain.Universe, g smchain.Genesis, blocks [][]smchain.Tx, 
 		for i, tx := range txs {
 			if b == p && i == q {
 				d := ob.Deliver(in.tx)
+				if in.acceptOK && d.Code == 0 {
+					rep.Obs("twin_member_tx_accepted_not_judged", 1)
+					return true
+				}
+				if in.acceptOK {
+					rep.Obs("twin_member_tx_refused", 1)
+				}
 				if len(d.Events) > 0 {
 					rep.Violationf("twin:"+in.class+":own-events", detail, "injected %s transaction %s produced events", in.class, in.tx.Label)
 					return false
@@ -132,6 +142,13 @@ func compareTwin(u *smchain.Universe, g smchain.Genesis, blocks [][]smchain.Tx, 
 		}
 		if b == p && q >= len(txs) {
 			d := ob.Deliver(in.tx)
+			if in.acceptOK && d.Code == 0 {
+				rep.Obs("twin_member_tx_accepted_not_judged", 1)
+				return true
+			}
+			if in.acceptOK {
+				rep.Obs("twin_member_tx_refused", 1)
+			}
 			if len(d.Events) > 0 {
 				rep.Violationf("twin:"+in.class+":own-events", detail, "injected %s transaction %s produced events", in.class, in.tx.Label)
 				return false
@@ -193,7 +210,7 @@ func twinCase(env *vlib.Env, h int, rep *vlib.Reporter) {
 	tag, nontriv := stateTag(sh.App)
 	var in injection
 	in.skipKey = -1
-	cls := h % (5 + len(payloadKinds))
+	cls := h % (7 + len(payloadKinds))
 	switch {
 	case cls == 0 || cls == 1:
 		base := hist.U.SignTx(0, 77_000_000+uint64(h), smchain.ChainID, shmsg.NewBlockSeen(9), "base")
@@ -230,6 +247,39 @@ func twinCase(env *vlib.Env, h int, rep *vlib.Reporter) {
 		if c := sh.CheckTx(in.tx); c.Code == 0 {
 			rep.Violationf("code0:CheckTx:transplant", map[string]any{"tx": in.tx.Label, "history": h}, "a transaction carrying another transaction's signature bytes passed CheckTx (%s)", in.tx.Label)
 		}
+	case cls == 5 || cls == 6:
+		// a member sends a structurally hostile or half-valid payload: if the application refuses
+		// it, the refusal must be complete (no trace in any later response)
+		var mem []int
+		for i, a := range hist.U.Addrs {
+			if isMember(sh.App, a) {
+				mem = append(mem, i)
+			}
+		}
+		if len(mem) == 0 {
+			rep.Obs("twin_skipped_no_member", 1)
+			return
+		}
+		s := mem[r.Intn(len(mem))]
+		hm := smchain.HostileMsgs(r, hist.U, sh.App.EONCounter)
+		pick := hm[r.Intn(len(hm))]
+		if cls == 6 {
+			// half-valid check-ins: one field good, the other malformed
+			good := shmsg.NewCheckIn(hist.U.ValKeys[s], &hist.U.EncKeys[s].PublicKey).GetCheckIn()
+			variants := []*shmsg.CheckIn{
+				{ValidatorPublicKey: good.ValidatorPublicKey, EncryptionPublicKey: good.EncryptionPublicKey[:len(good.EncryptionPublicKey)-1]},
+				{ValidatorPublicKey: good.ValidatorPublicKey, EncryptionPublicKey: nil},
+				{ValidatorPublicKey: good.ValidatorPublicKey, EncryptionPublicKey: append([]byte{9}, good.EncryptionPublicKey[1:]...)},
+				{ValidatorPublicKey: r.Bytes(32), EncryptionPublicKey: r.Bytes(33)},
+				{ValidatorPublicKey: good.ValidatorPublicKey[:31], EncryptionPublicKey: good.EncryptionPublicKey},
+			}
+			v := r.Intn(len(variants))
+			pick.Label = fmt.Sprintf("half-valid-checkin-%d", v)
+			pick.Msg = &shmsg.Message{Payload: &shmsg.Message_CheckIn{CheckIn: variants[v]}}
+		}
+		in.class = "refused-member"
+		in.acceptOK = true
+		in.tx = hist.U.SignTx(s, 75_000_000+uint64(h), smchain.ChainID, pick.Msg, "member-"+pick.Label)
 	case cls == 3:
 		if len(earlier) == 0 {
 			rep.Obs("twin_skipped_no_earlier_tx", 1)
@@ -238,7 +288,7 @@ func twinCase(env *vlib.Env, h int, rep *vlib.Reporter) {
 		in.class, in.tx = "replay", earlier[r.Intn(len(earlier))]
 		in.tx.Label = "REPLAY " + in.tx.Label
 	default:
-		kind := payloadKinds[cls-5]
+		kind := payloadKinds[cls-7]
 		var outs []int
 		for i, a := range hist.U.Addrs {
 			if !isMember(sh.App, a) {
